@@ -238,6 +238,25 @@ fn run_variants(c: &CliCase, expected: &str, dir: &std::path::Path, obs: &mut Ob
             }
         }
     }
+    // variant 4b: short options (-f, -o, -l) with separate values
+    {
+        let outp3 = dir.join("out3.txt");
+        let mut args: Vec<String> = base.iter().map(|a| if a == "--list" { "-l".to_string() } else { a.clone() }).collect();
+        args.push("-f".into());
+        args.push(input.display().to_string());
+        args.push("-o".into());
+        args.push(outp3.display().to_string());
+        match run_cli(&args, None, &[], None) {
+            Err(e) => return Verdict::Broken(e),
+            Ok(o) => {
+                runs += 1;
+                let written = std::fs::read(&outp3).unwrap_or_default();
+                if o.status != 0 || written != expected.as_bytes() {
+                    return fail(format!("{} (short options): exit {}, output file contains {:?}", describe(&args, ""), o.status, truncate(&String::from_utf8_lossy(&written), 1200)));
+                }
+            }
+        }
+    }
     // variant 5: the config file is equivalent to repeating the flag per line
     if let Some((names, _, _)) = &c.targets_file {
         if names.iter().all(|n| !n.is_empty()) || true {
@@ -375,7 +394,7 @@ pub fn gen(t: &mut Tape) -> CliCase {
 }
 
 pub fn check(ctx: &mut Ctx) {
-    ctx.rule = "cases = (AST document, option combination): delimiters / tag names default-omitted, default-explicit or other pool entries (incl. multi-byte), offset omitted / +00:00 / +09:00 / -0800, current time as RFC 3339 in 4 zone spellings, targets via flags / config file (LF or CRLF, with or without trailing line break) / both plus distractor names, mode clean / --list / --list-all each with or without --list-json (--list-json without a list mode is unspecified and not generated). Each case runs the binary (rebuilt from /repo) 9-10 times: --filename -> stdout under 5 TZ/locale environments, stdin -> stdout, --filename -> --output, --output == input file, stdin -> --output, config lines as flags, all defaults spelled out. Oracle: exit status 0 and output byte-identical to the library result for the corresponding configuration (targets = file lines united with flags; omitted options = documented defaults). Non-trivial = a non-default option or list mode, and the result differs from the input.".into();
+    ctx.rule = "cases = (AST document, option combination): delimiters / tag names default-omitted, default-explicit or other pool entries (incl. multi-byte), offset omitted / +00:00 / +09:00 / -0800, current time as RFC 3339 in 4 zone spellings, targets via flags / config file (LF or CRLF, with or without trailing line break) / both plus distractor names, mode clean / --list / --list-all each with or without --list-json (--list-json without a list mode is unspecified and not generated). Each case runs the binary (rebuilt from /repo) 10-11 times (incl. the short options -f / -o / -l): --filename -> stdout under 5 TZ/locale environments, stdin -> stdout, --filename -> --output, --output == input file, stdin -> --output, config lines as flags, all defaults spelled out. Oracle: exit status 0 and output byte-identical to the library result for the corresponding configuration (targets = file lines united with flags; omitted options = documented defaults). Non-trivial = a non-default option or list mode, and the result differs from the input.".into();
     ctx.assume("arguments are passed in --opt=value form; the current time always carries an explicit offset (without one the binary silently uses the wall clock); target names contain no line breaks");
     ctx.assume("\"any environment\" is sampled (TZ in {UTC, Asia/Tokyo, America/Los_Angeles, unset}, LANG / LC_ALL in {C, en_US.UTF-8, ja_JP.UTF-8, unset}), not exhausted");
     if !cli_available() {
